@@ -103,10 +103,10 @@ def main():
             for _ in range(3):
                 rc1, _o = run(["go", "test", "-vet=off", "-count=1", "-run", "^" + top + "$", rel], wt, timeout=900)
                 passes += rc1 == 0
-            if passes == 3:
+            if passes >= 2:
                 flaky.append(t)
         extra = [t for t in extra if t not in flaky]
-        meta["suite_with_change"] = {"failed_tests": sorted(failed), "beyond_always_fail": extra, "failed_only_under_load_passed_3_of_3_alone": flaky, "wall_s": round(time.time() - t0, 1)}
+        meta["suite_with_change"] = {"failed_tests": sorted(failed), "beyond_always_fail": extra, "failed_only_under_load_passed_alone_at_least_2_of_3": flaky, "wall_s": round(time.time() - t0, 1)}
         meta["suite_passes_with_change"] = not extra
         os.makedirs(out, exist_ok=True)
         with open(os.path.join(out, "patch.diff"), "w") as f:
